@@ -1001,6 +1001,8 @@ class Interp:
             tn = type(v.v).__name__
             if tn in classes or ("builtins." + tn) in classes:
                 return True
+            if tn == "bool" and any(c in classes for c in _TOWER["int"]):
+                return True  # bool is a subclass of int
             return None if unknown else False
         if isinstance(v, TupleV):
             tn = v.kind
@@ -1029,7 +1031,7 @@ class Interp:
                     tn = "int"
                 else:
                     tn = "float"
-                return True if tn in classes else (None if unknown else False)
+                return True if any(c in classes for c in _TOWER[tn]) else (None if unknown else False)
             a = v.single_atom()
             if a is None or (a[0] in ("fn", "grp", "num", "c")):
                 # arithmetic / library result: never an instance of a package class
@@ -1956,6 +1958,11 @@ class Interp:
                 a = a + [NONE]
             return SliceV(*a)
         return None
+
+
+_TOWER = {"int": ("int", "numbers.Number", "numbers.Complex", "numbers.Real", "numbers.Rational", "numbers.Integral"),
+          "float": ("float", "numbers.Number", "numbers.Complex", "numbers.Real"),
+          "complex": ("complex", "numbers.Number", "numbers.Complex")}
 
 
 class _SuperV:
